@@ -14,13 +14,14 @@ LEVEL = "exploration"
 RULE = (
     "exhaustive: every nuclide base in nuclideBases.instances x every identifier kind; every element; every burn-chain entry; "
     "every class in armi.materials x N temperatures across each stated validity range. A case = one (nuclide|element|"
-    "transmutation|material,temperature) tuple; all distinct; non-trivial = has at least one identifier / product / property to judge."
+    "transmutation|material,temperature) tuple; all distinct; non-trivial = has at least one identifier / product / property to judge. "
+    "Plus a seeded (not exhaustive) relabel shard: changeLabel histories on materials' nuclides and random nuclides, all label look-ups and materials re-judged after each step."
 )
 EXHAUSTIVE = {"quick": True, "thorough": True}
 EXHAUSTIVE_PART = "all nuclide bases, elements, burn-chain entries and material classes (temperatures are a grid over each stated range)"
 TOLERANCES = {"abundance_sum": 1e-6, "massfrac_sum": 1e-5}
-FLOORS = {"quick": {"nuclide": 4000, "element": 100, "burnchain.entry": 100, "material": 40, "material.again": 40, "material.T": 500, "nucDir.natural": 200, "nucDir.natural-mass": 60, "nucDir.members": 100, "encoding.mcc": 500, "burnchain.file-vs-live": 30, "burnchain.file-product": 100},
-          "thorough": {"nuclide": 4000, "element": 100, "burnchain.entry": 100, "material": 40, "material.again": 40, "material.T": 5000, "nucDir.natural": 200, "nucDir.natural-mass": 60, "nucDir.members": 100, "encoding.mcc": 500, "burnchain.file-vs-live": 30, "burnchain.file-product": 100}}
+FLOORS = {"quick": {"nuclide": 4000, "element": 100, "burnchain.entry": 100, "material": 40, "material.again": 40, "material.T": 500, "nucDir.natural": 200, "nucDir.natural-mass": 60, "nucDir.members": 100, "encoding.mcc": 500, "burnchain.file-vs-live": 30, "burnchain.file-product": 100, "relabel.step": 30, "relabel.lookup": 120000, "relabel.material": 600},
+          "thorough": {"nuclide": 4000, "element": 100, "burnchain.entry": 100, "material": 40, "material.again": 40, "material.T": 5000, "nucDir.natural": 200, "nucDir.natural-mass": 60, "nucDir.members": 100, "encoding.mcc": 500, "burnchain.file-vs-live": 30, "burnchain.file-product": 100, "relabel.step": 400, "relabel.lookup": 1500000, "relabel.material": 8000}}
 
 SYMBOLS = ("H HE LI BE B C N O F NE NA MG AL SI P S CL AR K CA SC TI V CR MN FE CO NI CU ZN GA GE AS SE BR KR RB SR Y ZR NB MO TC RU RH PD "
            "AG CD IN SN SB TE I XE CS BA LA CE PR ND PM SM EU GD TB DY HO ER TM YB LU HF TA W RE OS IR PT AU HG TL PB BI PO AT RN FR RA AC TH "
@@ -34,12 +35,13 @@ NO_COMPOSITION_BY_DESIGN = {"Custom", "Void"}
 def plan(tier, seed):
     nT = 25 if tier == "quick" else 400
     return [{"name": "nuclides", "kind": "nuclides"}, {"name": "elements", "kind": "elements"},
-            {"name": "burnchain", "kind": "burnchain"}, {"name": "materials", "kind": "materials", "nT": nT}]
+            {"name": "burnchain", "kind": "burnchain"}, {"name": "materials", "kind": "materials", "nT": nT},
+            {"name": "relabel", "kind": "relabel", "n": 30 if tier == "quick" else 400}]
 
 
 def run_shard(spec, rec):
     rng = random.Random(spec["rng"])
-    {"nuclides": do_nuclides, "elements": do_elements, "burnchain": do_burnchain, "materials": do_materials}[spec["kind"]](spec, rec, rng)
+    {"nuclides": do_nuclides, "elements": do_elements, "burnchain": do_burnchain, "materials": do_materials, "relabel": do_relabel}[spec["kind"]](spec, rec, rng)
 
 
 # ----------------------------------------------------------------------------- independent encoders
@@ -425,3 +427,78 @@ def do_materials(spec, rec, rng):
                 rec.violation("material/expansion/%s%s" % (name, "" if exp_rng else "/no-stated-range"), why, dict(w, T=T, units=u))
                 break
         rec.case(["material", name, nT], sample={"material": name, "massfrac_sum": tot, "density_range": str(dens_rng), "expansion_range": str(exp_rng)} if name in ("HT9", "UZr") else None)
+
+
+# ----------------------------------------------------------------------------- the directory after labels were changed
+def do_relabel(spec, rec, rng):
+    """changeLabel() is the directory's one public mutator (cross-section libraries with their own labels call it through
+    XSNuclide.updateBaseNuclide). After any sequence of relabels - to a fresh label, to the label the nuclide already has, and
+    back - every nuclide is still retrieved by the label it has, no two share one, and every material can still be instantiated
+    with the composition it had before."""
+    from armi import materials
+    from armi.nucDirectory import nuclideBases as nb
+
+    classes = [c for c in materials.iterAllMaterialClassesInNamespace(materials) if c.__name__ not in ABSTRACT]
+    first = {}
+    for cls in classes:
+        try:
+            first[cls.__name__] = dict(cls().massFrac)
+        except Exception:
+            pass  # judged by the materials shard
+    named = sorted({n for mf in first.values() for n in mf if n in nb.byName})
+    everyone = list(nb.instances)
+    pool = [nb.byName[n] for n in rng.sample(named, min(len(named), spec["n"] // 2))] + rng.sample(everyone, spec["n"] - spec["n"] // 2)
+    for x in ("U235", "U238"):  # materials look these up by label
+        pool.insert(rng.randrange(len(pool)), nb.byName[x])
+    rec.note("relabelled", sorted({n.name for n in pool})[:80])
+    serial = [0]
+
+    def judge(n, step, w):
+        rec.hit("relabel.step")
+        seen = {}
+        for m in everyone:
+            rec.hit("relabel.lookup")
+            got = nb.byLabel.get(m.label)
+            if got is not m:
+                key = "relabel/label-lookup-lost" if got is None else "relabel/label-lookup-returns-another-nuclide"
+                rec.violation(key + ("/the-relabelled-nuclide" if m is n else "/a-bystander"), "after %s: byLabel[%r] is %r, the nuclide carrying that label is %r" % (step, m.label, got, m), w)
+                break
+            if m.label in seen:
+                rec.violation("relabel/two-nuclides-share-a-label", "after %s: %r and %r both carry label %r" % (step, seen[m.label], m, m.label), w)
+                break
+            seen[m.label] = m
+        if nb.byName.get(n.name) is not n:
+            rec.violation("relabel/name-lookup-changed", "after %s: byName[%r] is %r" % (step, n.name, nb.byName.get(n.name)), w)
+        for cls in (classes if rng.random() < .4 else rng.sample(classes, 12)):
+            name = cls.__name__
+            if name not in first:
+                continue
+            rec.hit("relabel.material")
+            try:
+                mf = dict(cls().massFrac)
+            except Exception as e:
+                rec.violation("relabel/material-cannot-be-instantiated/%s" % type(e).__name__, "after %s: %s() raised %s: %s" % (step, name, type(e).__name__, str(e)[:120]), dict(w, material=name))
+                break
+            if mf != first[name]:
+                rec.violation("relabel/material-composition-changed", "after %s: %s() has another composition than before (%s)" % (step, name, sorted(set(mf) ^ set(first[name]))[:6]), dict(w, material=name))
+                break
+
+    for i, n in enumerate(pool):
+        old = n.label
+        serial[0] += 1
+        fresh = "q%03d" % serial[0]
+        assert fresh not in nb.byLabel
+        plan_ = rng.choice([[old], [fresh, old], [fresh, fresh, old], [old, fresh, old], [fresh]])
+        w = {"nuclide": n.name, "label": old, "relabels": plan_}
+        done = []
+        for new in plan_:
+            try:
+                nb.changeLabel(n, new)
+            except Exception as e:
+                rec.crash("relabel/changeLabel", e, w)
+                break
+            done.append(new)
+            if n.label != new:
+                rec.violation("relabel/label-not-set", "changeLabel(%s, %r) left label %r" % (n.name, new, n.label), w)
+            judge(n, "changeLabel(%s): %s" % (n.name, " -> ".join([old] + done)), w)
+        rec.case(["relabel", n.name, len(plan_), plan_[-1] == old, plan_[0] == old], nontrivial=True, sample=w if i < 3 else None)
